@@ -57,6 +57,9 @@ CURATED = [
 ]
 
 ADSORBATES = [
+    # metallacycles: one surface atom bridged twice / two surface atoms
+    'C1C[Pt]1', '[Pt]1OCC1', 'CC1C[Pt]1', 'C1CC[Pt]1', 'C1[Pt][Pt]1',
+    'C1C[Pt][Pt]1', 'O=C1C[Pt]1',
     '[Pt]', '[H][Pt]', 'O[Pt]', 'O=[Pt]', 'C[Pt]', 'C([Pt])[Pt]',
     'C([Pt])([Pt])[Pt]', 'C([Pt])([Pt])([Pt])[Pt]', 'CC[Pt]', 'CC([Pt])[Pt]',
     'CC([Pt])([Pt])[Pt]', 'C([Pt])C[Pt]', '[Pt]C([Pt])C[Pt]',
